@@ -3,6 +3,8 @@ import HpxVerif.Lemmas.RingBij5
 import HpxVerif.Lemmas.RingBij6
 import HpxVerif.Lemmas.LayerBmi
 import HpxVerif.Lemmas.RingCenter
+import HpxVerif.Lemmas.SqrtApprox5
+import HpxVerif.Lemmas.SqrtApprox4
 import Mathlib.Tactic.Ring
 import Mathlib.Tactic.Linarith
 
@@ -22,8 +24,9 @@ Proved so far:
 `ring_order` (RING numbers follow decreasing latitude then increasing longitude of the centres), and on cell numbers
 `ring_bijection` for depths ≤ 29, LUT and BMI2 builds, under the hypothesis that the `f64` square-root estimate is within
 4 of the exact ring index (the correction loops do the rest).  **`ring_center_agrees`, `ring_scheme_same_cells`**: over ℝ the
-RING-scheme centre, vertices and offset positions of cell `r` are those of the NESTED cell `from_ring(r)`.  Open: the
-square-root hypothesis itself.
+RING-scheme centre, vertices and offset positions of cell `r` are those of the NESTED cell `from_ring(r)`.
+**The square-root hypothesis is a theorem** (`sqrt_estimate_accuracy`, from Lean's logical binary64 model): the statements
+above hold unconditionally (`ring_bijection_unconditional`, `ring_scheme_same_cells_unconditional`).
 -/
 
 namespace Hpx.C10
@@ -217,5 +220,33 @@ theorem ring_sphCoo_agree (debug : Bool) (cfg : Cfg) (hb : cfg.bmi = false) (d :
 
 
 end SameCells
+
+/-! ## the square-root estimate is accurate: the hypothesis `ApproxOK` is a theorem -/
+
+/-- **the `f64` square-root estimate of the polar ring index is never too small and at most one too large**, for every
+    argument below `2^60` — proved from Lean's logical model of binary64 (`Float.ofNat` correctly rounded, `sqrt`
+    correctly rounded, `as u64` = floor), no sampling.  The "+1" case is finding F2 (it occurs: last cells of polar rings
+    at depth ≥ 26); the integer correction loops added by the repair remove it. -/
+theorem sqrt_estimate_accuracy (x t : Nat) (hx : x < 2 ^ 60) (h1 : tri4 t ≤ x) (h2 : x < tri4 (t + 1)) :
+    t ≤ polarRingApprox x ∧ polarRingApprox x ≤ t + 1 := Hpx.SqrtApprox.polarRingApprox_sharp x t hx h1 h2
+
+theorem approx_ok : Hpx.RingBij.ApproxOK (2 ^ 60) := Hpx.SqrtApprox.approxOK_2_60
+
+/-- **`ring_bijection`, unconditional**: on cell numbers, every depth `≤ 29`, LUT and BMI2 builds, `to_ring` and `from_ring`
+    are inverse bijections of `[0, 12·4^d)` -/
+theorem ring_bijection_unconditional (cfg : Cfg) (d : Nat) (hd : d ≤ 29) :
+    (∀ h, h < 12 * 4 ^ d → ∃ r, toRing cfg d h = some r ∧ r < 12 * 4 ^ d ∧ fromRing cfg d r = some h) ∧
+    (∀ r, r < 12 * 4 ^ d → ∃ h, fromRing cfg d r = some h ∧ h < 12 * 4 ^ d ∧ toRing cfg d h = some r) :=
+  ring_bijection cfg d hd approx_ok
+
+/-- **both schemes describe the same cells, unconditional** (LUT build; every depth `≤ 29`) -/
+theorem ring_scheme_same_cells_unconditional (debug : Bool) (cfg : Cfg) (hb : cfg.bmi = false) (d : Nat) (hd : d ≤ 29) :
+    (∀ r, r < 12 * 4 ^ d → ∃ h, fromRing cfg d r = some h ∧ h < 12 * 4 ^ d ∧
+      Ring.centerOfProjectedCell (α := ℝ) debug (2 ^ d) r = Hash.centerOfProjectedCell (α := ℝ) cfg d h ∧
+      Ring.center (α := ℝ) debug (2 ^ d) r = Hash.center (α := ℝ) cfg d h) ∧
+    (∀ h, h < 12 * 4 ^ d → ∃ r, toRing cfg d h = some r ∧ r < 12 * 4 ^ d ∧
+      Ring.centerOfProjectedCell (α := ℝ) debug (2 ^ d) r = Hash.centerOfProjectedCell (α := ℝ) cfg d h ∧
+      Ring.center (α := ℝ) debug (2 ^ d) r = Hash.center (α := ℝ) cfg d h) :=
+  Hpx.SqrtApprox.ring_scheme_same_cells debug cfg hb d hd
 
 end Hpx.C10
